@@ -240,6 +240,26 @@ def reverseJW (Q : Op) : Op :=
 
 end
 
+/-! ### the exact regime, as a decidable run-time check
+`+=` deletes an entry whose new value has `|v| < tol`.  A run is *exact* when every value deleted
+this way is exactly 0 (then `+=` denotes the sum).  These functions replay the same run and report
+whether it was exact; the driver evaluates them on every generated input (`c04.*_ok`), and the
+operator-level theorems carry them as their only hypothesis. -/
+
+def iaddStep (tol : Rat) (st : Op × Bool) (tc : Term × GQ) : Op × Bool :=
+  let v := Dict.getD st.1 tc.1 0 + tc.2
+  if GQ.isSmall tol v then (Dict.erase st.1 tc.1, st.2 && (v == 0)) else (Dict.set st.1 tc.1 v, st.2)
+
+/-- was `a += b` exact? -/
+def iaddOk (tol : Rat) (a b : Op) : Bool := (b.foldl (iaddStep tol) (a, true)).2
+
+/-- `acc = 0; for img in imgs: acc += img` — were all the `+=` exact? -/
+def sumOk (tol : Rat) (imgs : List Op) : Bool :=
+  (imgs.foldl (fun (st : Op × Bool) img => (iadd tol st.1 img, st.2 && iaddOk tol st.1 img)) ([], true)).2
+
+def jwFermionOk (tol : Rat) (A : Op) : Bool := sumOk tol (A.map fun tc => jwTerm tol tc.1 tc.2)
+def jwMajoranaOk (tol : Rat) (A : MOp) : Bool := sumOk tol (A.map fun tc => jwMajTerm tc.1 tc.2)
+
 end C04
 end Model
 end OFV
